@@ -1,7 +1,7 @@
 (* C06 — Generic transform controllers converge to the mapped image of their inputs. Statements only.
    Machine: GenCtl.q_step.  "Once the system goes quiet": the last change is followed by a reconcile of the item
    that starts after it (C05) and is the only one running on the item (C09); nothing else writes any more. *)
-From Verif Require Import Store Helpers DepDB Access AccessProofs GenCtl GenCtlProofs GenCtlConv Transform TransformProofs TransformConv.
+From Verif Require Import Store Helpers DepDB Access AccessProofs GenCtl GenCtlProofs GenCtlConv Transform TransformProofs TransformConv Destroy DestroyProofs.
 Open Scope N_scope.
 
 (* from ANY store state reachable under C07's invariant (whatever the earlier history of creations, updates,
@@ -62,3 +62,17 @@ Theorem C06_transform_stale_generation_removed : forall ns tin tout cname tf, ti
   (exists inp', st_get (kin ns tin x) st' = Some inp' /\ r_phase inp' = false) /\ ~ stale_generation ns tin tout x st'.
 Proof. exact t_stale_generation_removed. Qed.
 Print Assumptions C06_transform_stale_generation_removed.
+
+(* destroy.Controller (the anchor's destroy.go, Destroy.v): an undisturbed reconcile of an item succeeds, removes the
+   item iff it was tearing down, unowned and without finalizers, changes nothing else; afterwards no such item is left
+   at that id - so a torn-down input released by the transform controllers does disappear *)
+Theorem C06_destroy_controller_converges : forall ns typ cname now x st,
+  let s := d_reconcile ns typ cname now x st in
+  ds_pc s = DDone true /\
+  ds_store s = (match st_get (dkey ns typ x) st with
+                | Some cur => if d_ready cur then st_del (dkey ns typ x) st else st
+                | None => st
+                end) /\
+  (forall cur, st_get (dkey ns typ x) (ds_store s) = Some cur -> d_ready cur = false).
+Proof. exact d_converges. Qed.
+Print Assumptions C06_destroy_controller_converges.
